@@ -231,7 +231,7 @@ type builtPkg struct {
 	genErr string
 	exe    map[string]string
 	ccErr  map[string]string
-	fnIdx  map[string]int // public coroutine name -> index in the C table
+	fnIdx  map[string]int           // public coroutine name -> index in the C table
 	live   map[string]cgen.LiveFunc // "t.<name>" -> what the hook says about the coroutine
 }
 
